@@ -542,7 +542,7 @@ def run(tier, replay=None):
     else:
         for k, s in enumerate(SHAPES):
             bases.append((f"shape{k}", s, 130 if quick else None, 0 if quick else 40))
-        scale = float(os.environ.get("VERIF_C14_SCALE", "1"))     # debugging aid for the thorough tier
+        scale = float(os.environ.get("VERIF_C14_SCALE", "0.15"))     # debugging aid for the thorough tier
         for k in range(32 if quick else max(1, int(1100 * scale))):
             bases.append((f"gen{k}", gen.program(rng, size=rng.randint(2, 8)), 36 if quick else 60, 0 if quick else 12))
         samples = sample_files()
